@@ -48,10 +48,72 @@ def _provider():
     R.rulebook_provider_connector._cache = None
 
 
+ORDER_HW = ["Huawei CE6870", "Huawei NE40E", "Cisco Catalyst 2960", "Cisco Nexus 9316", "Cisco ASR 9000", "Arista DCS-7050", "B4com CS4100",
+            "H3C S6850", "Aruba AP-325"]
+ORDER_WORDS = ["Eth1", "Bundle-Ether1", "Bundle-Ether1.100", "GE1/0/1", "GE1/0/1.100", "Vlanif100", "Loopback0", "10", "100", "ud", "x",
+               "vpn1", "10.0.0.1", "unicast", "ipv4", "permit", "P1", "default"]
+
+
+def _order_tree(rnd, ordering, rev, depth=0):
+    """rows instantiated from the lines of a shipped ordering rulebook (plain and negated), one level of children"""
+    from vf.model import shiprows as SR
+    t = {}
+    for raw, rule in ordering.items():
+        toks = SR.rule_tokens(raw)
+        if toks is None or rule["attrs"]["order_reverse"]:
+            continue
+        for _ in range(2):
+            w = []
+            for tk in toks:
+                if tk == "*":
+                    w.append(rnd.choice(ORDER_WORDS))
+                elif tk == "~":
+                    w += [rnd.choice(ORDER_WORDS) for _ in range(rnd.randint(1, 2))]
+                elif tk.startswith("*/"):
+                    ok = [c for c in ORDER_WORDS + SR.CAND if SR._full(tk[2:-1], c)]
+                    if not ok:
+                        w = None
+                        break
+                    w.append(rnd.choice(ok))
+                else:
+                    w.append(tk)
+            if not w:
+                continue
+            if toks[-1] != "~" and rnd.random() < 0.7:
+                w += [rnd.choice(ORDER_WORDS) for _ in range(rnd.randint(1, 2))]   # ordering rules are prefixes of real lines
+            row = " ".join(w)
+            if not rule["attrs"]["direct_regexp"].match(row):
+                continue
+            if rnd.random() < 0.45 and not row.startswith(rev + " "):
+                row = rev + " " + row
+            elif row.startswith(rev + " ") and rnd.random() < 0.45:
+                row = row[len(rev) + 1:]
+            ch = {}
+            if depth == 0 and rule["children"] and not row.startswith(rev + " "):
+                ch = _order_tree(rnd, rule["children"], rev, 1)
+            t.setdefault(row, ch)
+    items = list(t.items())
+    rnd.shuffle(items)
+    return dict(items)
+
+
 def _pool(tier, seed):
     """list of job dicts (JSON-able); identical in every process for the same (tier, seed)"""
     from vf.model import corpus
     jobs = []
+    # configurations full of rows (plain and negated) that the SHIPPED ordering rulebooks of several vendors speak about: the same rule
+    # texts occur in several vendors' *.order files, near-ties between overlapping ordering rules are common there
+    from annet.annlib.netdev.views.hardware import HardwareView
+    from annet.rulebook import get_rulebook
+    from vf.model import sut
+    _provider()
+    for m in ORDER_HW:
+        hw = HardwareView(m, None)
+        rb = get_rulebook(hw)
+        rev = sut.registry()[hw.vendor].reverse
+        for v in range(2):
+            rnd = random.Random("order-%d-%s-%d" % (seed, m, v))
+            jobs.append({"kind": "order", "model": m, "new": _order_tree(rnd, rb["ordering"], rev)})
     ss = corpus.samples()
     step = max(1, len(ss) // N_CORPUS[tier])
     for i in range(0, len(ss), step):
@@ -174,6 +236,12 @@ def run_job(job, snapshots=False):
         rb = get_rulebook(hw)
         acl, comments = None, False
         vendor = hw.vendor
+    elif job["kind"] == "order":
+        hw = HardwareView(job["model"], None)
+        old, new = RL.to_odict({}), RL.to_odict(job["new"])
+        rb = get_rulebook(hw)
+        acl, comments = None, False
+        vendor = hw.vendor
     else:
         vendor = job["vendor"]
         hw = sut.hw_for(vendor)
@@ -192,10 +260,14 @@ def run_job(job, snapshots=False):
     prev = signal.signal(signal.SIGALRM, _alarm)
     signal.setitimer(signal.ITIMER_REAL, JOB_TIME_LIMIT)
     try:
-        d, pt = _diff_and_patch(sut.Dev(hw), old, new, acl, None, comments, rb=rb)
-        fmt = sut.registry().match(hw).make_formatter(indent="")
+        if job["kind"] == "order":
+            d, paths = [], []   # (these rows are made for the orderer; the ordered configuration is what `annet gen` prints)
+        else:
+            d, pt = _diff_and_patch(sut.Dev(hw), old, new, acl, None, comments, rb=rb)
+            fmt = sut.registry().match(hw).make_formatter(indent="")
+            paths = [list(p) for p in fmt.cmd_paths(pt).keys()]
         oc = Orderer(rb["ordering"], hw.vendor).order_config(new)
-        res = ["ok", _plain_diff(d), [list(p) for p in fmt.cmd_paths(pt).keys()], [[k, json.dumps(v)] for k, v in oc.items()]]
+        res = ["ok", _plain_diff(d), paths, [[k, json.dumps(v)] for k, v in oc.items()]]
     except _Timeout:
         res = ["timeout"]     # a time budget hit is inconclusive, never a violation
     except Exception as e:
@@ -292,6 +364,8 @@ def check(case):
         seen[idx] = True
         if job["kind"] == "syn" and job["acl"]:
             labels.append("shared-acl")
+        if job["kind"] == "order":
+            labels.append("shipped-ordering-job")
         if job["kind"] == "syn" and res[0] == "ok":
             # absolute oracle for the mutating logic: every call sees a pristine rule, so its removal command carries exactly one mark
             for p in res[2]:
